@@ -207,6 +207,32 @@ def probe_ctor(ctx, payload):
             ctx.violation("deepcopy/rating", "ctor", payload, dict(orig=[repr(r.mu), repr(r.sigma), r.name, r.id],
                                                                   copy=[repr(c.mu), repr(c.sigma), c.name, c.id], same_object=c is r),
                           model_name, "rating")
+    # ... of instances of application-side SUBCLASSES of the rating class too (inherited constructor / own constructor
+    # signature / property-backed entity): whatever class the copy has, it is a distinct object with the same four values,
+    # alone and inside nested team lists, and it is independent of the original
+    from ..util import make_sub
+
+    RC = type(model.rating())
+    for which in (0, 1, 2):
+        for r0 in made[which:which + 6:3]:
+            ctx.ev("deepcopy")
+            ctx.ev("deepcopy/subclass-instance")
+            try:
+                r = make_sub(RC, which, r0.mu, r0.sigma, r0.name)
+                c = copy.deepcopy(r)
+                c2 = copy.deepcopy([[r, r0]])[0][0]
+                okc = all(x is not r and _exact(x.mu, r.mu) and _exact(x.sigma, r.sigma) and x.name == r.name and x.id == r.id
+                          for x in (c, c2))
+                if okc:
+                    c.sigma = 777.0
+                    okc = _exact(r.sigma, r0.sigma)
+                if not okc:
+                    ctx.violation("deepcopy/subclass-instance", "ctor", payload,
+                                  dict(subclass=type(r).__name__, orig=[repr(r0.mu), repr(r0.sigma), r0.name, r.id],
+                                       copy=[repr(c.mu), repr(c.sigma), c.name, c.id], original_after_editing_copy=repr(r.sigma)),
+                                  model_name, "subclass")
+            except Exception as e:  # noqa: BLE001
+                ctx.violation("deepcopy/exception", "ctor", payload, dict(subclass=which, exc=repr(e)), model_name, "subclass")
     if len(made) >= 4:
         nested = [[made[0], made[1]], [made[2]], [made[3], made[0]]]
         ctx.ev("deepcopy")
